@@ -31,6 +31,16 @@ CHECKS = {
              "operation itself); each history is executed under the six dialect classes inline and parameterised, and TLC (J_C09) folds the logged calls "
              "through the spec and compares the real tail tokens and parameter list with the expected ones. Exhaustive over the stated product.",
         ref="6/C09", technique="TLA+ builder state machine with per-dialect PagTail (PT_Builder); TLC-generated setter histories replayed; TLC trace judge (J_C09)"),
+    "C14": dict(
+        text="PT_Builder!Raises and RenderRaises give, for every call in every abstract state, the exception class that must be raised (join "
+             "criterion sources vs FROM / joined / CTE / joined item under the library's table equality; conflict-handler routing; statement-kind "
+             "one-shots), and TLC checks GuardsExact on the spec (agreement with an independently written availability predicate) on all 25 200 "
+             "join programs. TLC grows every program of the families by transitions: joins (4 base shapes x CTE x prior join x 7 items x 225 criteria "
+             "over 10 source shapes incl. aliased, schema, temporal, equal-but-distinct, subquery, CTE; both operand orders; function operands), all "
+             "orders of <=3 conflict-handler calls, all <=3-call statement-kind switches, set-operation arities, CASE, RETURNING x statement kind, "
+             "DDL / temporal / rollup one-shots. Each is executed on the real library and J_C14 (TLC) compares every call's and the render's exception "
+             "class with the spec in both directions (missed / false rejection / wrong class).",
+        ref="6/C14", technique="TLA+ guard functions over the abstract builder state (PT_Builder!Raises); TLC-grown programs replayed; TLC trace judge (J_C14)"),
     "C15": dict(
         text="Same heap model and judge as C01 with the duplication actions enabled: PT_Sharing!Dup models copy.copy (shares what __copy__ does "
              "not re-copy), deepcopy and pickle (everything fresh); TLC proves Frozen for the intended tables and enumerates every history "
